@@ -4,6 +4,7 @@ import LuaHelper.Driver.ConfOps
 import LuaHelper.Driver.LexOps
 import LuaHelper.Driver.ParseOps
 import LuaHelper.Driver.GrammarOps
+import LuaHelper.Driver.ScopeOps
 open LuaHelper
 
 def dispatch (cmd : String) (args : List String) : String :=
@@ -20,6 +21,9 @@ def dispatch (cmd : String) (args : List String) : String :=
   | some r => r
   | none =>
   match GrammarOps.handle cmd args with
+  | some r => r
+  | none =>
+  match ScopeOps.handle cmd args with
   | some r => r
   | none => "bad-op"
 
